@@ -156,7 +156,7 @@ def run_tv(cases, il_subs, c_subs, devsets, ninputs, seed, workers=None, timeout
     try:
         f = os.path.join(d, "tv.json")
         dump_tv(f, cases, il_subs, c_subs, devsets)
-        r = tlc.run("TV.tla", "TV.cfg", env={"TV_FILE": f, "TV_SEED": seed, "TV_NINPUTS": ninputs},
+        r = tlc.run("TV.tla", "TV.cfg", env={"TV_FILE": f, "TV_SEED": seed, "TV_NB": ninputs},
                     workers=workers, timeout=timeout, tags=("TVREPORT",))
         s = None
         if static:
